@@ -347,6 +347,13 @@ func vOptsFull(dir string, mode EntryIdxMode, rw, load RWMode, seg int64, sync b
 // two list elements, one member in each of the two sets, two sorted-set members, one key/value pair.
 // It returns the key/value keys written.
 func seedState(db *DB, profile int) [][]byte {
+	txs, keys := genSeed(profile)
+	runTxs(db, txs)
+	return keys
+}
+
+// genSeed draws the seed transactions once, so that a twin database can receive the same ones.
+func genSeed(profile int) ([][]*sOp, [][]byte) {
 	var keys [][]byte
 	mk := func(kind int, set func(o *sOp)) *sOp {
 		o := &sOp{kind: kind}
@@ -376,8 +383,7 @@ func seedState(db *DB, profile int) [][]byte {
 			mk(opSAdd, func(o *sOp) { o.dsKey, o.val = vDSKeys[0], vBytes(1) }),
 			mk(opZAdd, func(o *sOp) { o.key, o.score, o.val = vBytes(1), vScores[0], vBytes(1) })})
 	}
-	runTxs(db, txs)
-	return keys
+	return txs, keys
 }
 
 func init() {
